@@ -37,13 +37,28 @@ func (t Tag) MarshalYAML() (interface{}, error) {
 	return &tagYAML{Key: t.Key, Value: t.Value}, nil
 }
 
+// tagValueYAML reads the value of a tag. The YAML library doesn't hand the
+// quoted strings "~" and "null" to UnmarshalYAML, as it mistakes them for
+// null, but will pass them to UnmarshalText.
+type tagValueYAML struct {
+	Expression
+}
+
+func (t *tagValueYAML) UnmarshalText(text []byte) error {
+	t.Expression = NewStringExpression(string(text))
+	return nil
+}
+
 func (t *Tag) UnmarshalYAML(unmarshal func(interface{}) error) error {
-	var y tagYAML
+	var y struct {
+		Key   string
+		Value tagValueYAML
+	}
 	if err := unmarshal(&y); err != nil {
 		return err
 	}
 	t.Key = y.Key
-	t.Value = y.Value
+	t.Value = y.Value.Expression
 	return nil
 }
 
